@@ -466,11 +466,10 @@ def call_result(cases, check_impl=None, nontrivial=None, rule="", model_args=Non
         try:
             raw = (core.FUNCS[fn] if isinstance(fn, str) else fn)(*a2)
             i = ("OK", core.show(raw))
-            if any(raw is a for a in a2 if isinstance(a, bytearray)) or isinstance(raw, (bytearray, memoryview)):
-                viol.append({"what": "the result is the caller's own mutable argument object (or a mutable view): a later change to the caller's "
-                                     "buffer changes the 'result'", "expected": "a fresh immutable value", "observed": type(raw).__name__ + (
-                                         " - the argument object itself" if any(raw is a for a in a2) else ""),
-                             "input": {"fn": fn, "args": [core.show(a) for a in args], "types": [arg_type(a) for a in a2]}})
+            if any(raw is a for a in a2 if isinstance(a, bytearray)):
+                # informational only: the properties do not promise a fresh object (the pinned pad_iso_1 returns an aligned
+                # message object itself), so this is recorded in the evidence, never reported
+                dist["info:result_is_the_argument_object:" + str(fn)] = dist.get("info:result_is_the_argument_object:" + str(fn), 0) + 1
         except Exception as e:  # noqa: BLE001
             i = ("ERR", core.bucket(e))
         carrier += 1
